@@ -13,7 +13,8 @@
 // Oracles (tags): open never panics nor do the accessors (C10); every recovered record is byte-for-byte one that was appended, positions
 // strictly increasing (C08); a batch is recovered whole, not at all, or minus a head that a later truncate call removed (C12); damage confined
 // to the payload / checksum bytes of one frame: open succeeds and every retained record of every OTHER entry is recovered intact (C09);
-// no damage: the reopened log shows exactly the state before (C07, C01).
+// no damage: the reopened log shows exactly the state before (C07, C01); while the layouts are built (default policy Always(Flush)):
+// the wal_bytes_written of every call equals the growth of the data in the files, measured by the independent frame walk (C15).
 #[cfg(test)]
 mod verif_enum_dmg {
     use super::*;
@@ -53,6 +54,7 @@ mod verif_enum_dmg {
         next: BTreeMap<&'static str, u64>,
         frames: Vec<Frame>,
         files: Vec<PathBuf>,
+        c15: Vec<String>,                      // calls whose reported wal_bytes_written differs from the growth of the data in the files
     }
 
     fn payload(call: usize, idx: usize, n: usize) -> Vec<u8> {
@@ -92,6 +94,13 @@ mod verif_enum_dmg {
         let (_, _, off) = walk(&wal_files(dir));
         if off == usize::MAX { BLOCK } else { BLOCK - off % BLOCK }
     }
+    /// absolute end of the data: (files before the last one) * file length + offset in the last file (no file is ever removed in these layouts)
+    fn cursor(dir: &Path) -> u64 {
+        let files = wal_files(dir);
+        let flen = std::fs::metadata(&files[0]).unwrap().len();
+        let (_, fi, off) = walk(&files);
+        if off == usize::MAX { files.len() as u64 * flen } else { fi as u64 * flen + off as u64 }
+    }
     fn n_entries(dir: &Path) -> usize { walk(&wal_files(dir)).0.last().map(|f| f.entry + 1).unwrap_or(0) }
 
     fn build(steps: &[Step]) -> Built {
@@ -101,6 +110,7 @@ mod verif_enum_dmg {
         let mut next: BTreeMap<&'static str, u64> = BTreeMap::new();
         let (mut ever, mut truncs, mut call_entries) = (Vec::new(), Vec::new(), Vec::new());
         let mut call = 0usize;
+        let mut c15: Vec<String> = Vec::new();
         let mut append = |log: &mut MultiRecordLog, qs: &mut BTreeMap<&'static str, Vec<Rec>>, next: &mut BTreeMap<&'static str, u64>, ever: &mut Vec<Rec>, call: usize, q: &'static str, sizes: &[usize]| {
             let pls: Vec<Vec<u8>> = sizes.iter().enumerate().map(|(i, n)| payload(call, i, *n)).collect();
             let p0 = next[q];
@@ -111,19 +121,22 @@ mod verif_enum_dmg {
                 qs.get_mut(q).unwrap().push(r.clone()); ever.push(r);
             }
             next.insert(q, p0 + sizes.len() as u64);
+            out.wal_bytes_written
         };
         for s in steps {
             let e0 = n_entries(dir.path());
-            match s {
-                Step::Create(q) => { log.create_queue(q).unwrap(); qs.insert(q, Vec::new()); next.insert(q, 0); }
-                Step::Delete(q) => { log.delete_queue(q).unwrap(); qs.remove(q); next.remove(q); }
+            let c0 = cursor(dir.path());
+            let reported: u64 = match s {
+                Step::Create(q) => { let o = log.create_queue(q).unwrap(); qs.insert(q, Vec::new()); next.insert(q, 0); o.wal_bytes_written }
+                Step::Delete(q) => { let o = log.delete_queue(q).unwrap(); qs.remove(q); next.remove(q); o.wal_bytes_written }
                 Step::Append(q, sizes) => append(&mut log, &mut qs, &mut next, &mut ever, call, q, sizes),
                 Step::Truncate(q, upto) => {
-                    log.truncate(q, ..=*upto).unwrap();
+                    let o = log.truncate(q, ..=*upto).unwrap();
                     truncs.push((call, *q, *upto));
                     let v = qs.get_mut(q).unwrap();
                     v.retain(|r| r.pos > *upto);
                     if *upto + 1 > next[q] { next.insert(q, *upto + 1); }
+                    o.wal_bytes_written
                 }
                 Step::Align(k) => {
                     // filler records to queue "f" (entry = 7 + 11 + 1 + 12 + payload bytes when it fits the block) until exactly k bytes are left
@@ -133,14 +146,19 @@ mod verif_enum_dmg {
                         let left = left_in_block(dir.path());
                         if left == *k || (*k == 0 && left == BLOCK) { break; }
                         let e1 = n_entries(dir.path());
-                        if left >= 31 + *k { append(&mut log, &mut qs, &mut next, &mut ever, call, "f", &[left - *k - 31]); }
-                        else { append(&mut log, &mut qs, &mut next, &mut ever, call, "f", &[40]); }
+                        let c1 = cursor(dir.path());
+                        let w = if left >= 31 + *k { append(&mut log, &mut qs, &mut next, &mut ever, call, "f", &[left - *k - 31]) }
+                                else { append(&mut log, &mut qs, &mut next, &mut ever, call, "f", &[40]) };
+                        let grown = cursor(dir.path()) - c1;
+                        if grown != w { c15.push(format!("filler append with {left} bytes left in the block: wal_bytes_written {w}, the data in the WAL files grew by {grown} bytes")); }
                         call_entries.push((e1, n_entries(dir.path())));
                         call += 1;
                     }
                     continue;
                 }
-            }
+            };
+            let grown = cursor(dir.path()) - c0;
+            if grown != reported { c15.push(format!("{s:?} (write cursor {} bytes into its block): wal_bytes_written {reported}, the data in the WAL files grew by {grown} bytes", c0 as usize % BLOCK)); }
             call_entries.push((e0, n_entries(dir.path())));
             call += 1;
         }
@@ -149,7 +167,7 @@ mod verif_enum_dmg {
         let (frames, _, _) = walk(&files);
         let retained: Vec<Rec> = qs.values().flat_map(|v| v.iter().cloned()).collect();
         let queues: Vec<&'static str> = qs.keys().copied().collect();
-        Built { dir, retained, ever, truncs, call_entries, queues, next, frames, files }
+        Built { dir, retained, ever, truncs, call_entries, queues, next, frames, files, c15 }
     }
 
     #[derive(Clone, Debug)]
@@ -345,6 +363,9 @@ mod verif_enum_dmg {
                     let b = build(steps);
                     let total_entries: usize = b.call_entries.iter().map(|c| c.1 - c.0).sum();
                     assert_eq!(b.frames.last().map(|f| f.entry + 1).unwrap_or(0), total_entries, "harness: frame walk and per-call entry counts disagree in {name}");
+                    for (i, c) in b.c15.iter().enumerate() {
+                        if i < 2 { fails.lock().unwrap().push(format!("E-HIST-FAIL tags=C15 run=E-dmg layout={name} steps={steps:?} damage=None :: {c}")); }
+                    }
                     let mut per_tag: BTreeMap<String, usize> = BTreeMap::new();
                     let mut cases: Vec<(Frame, Dmg)> = vec![(b.frames[0].clone(), Dmg::None)];
                     for (fi, f) in b.frames.iter().enumerate() {
